@@ -554,6 +554,22 @@ func c16Run(c *engine.Ctx) {
 			bases = append(bases, ref.NewMultiPoint(l, pat, ref.Counter()), ref.NewLine(ref.LineString, l, np*5, ref.Counter()))
 		}
 	}
+	// polygons with many rings (a row of end offsets that does not fit a small block): multipolygons
+	// with ring counts 60+20, 30+30+30, 3+70+1, 65, 17 x 4, 129, one position per ring
+	for _, counts := range [][]int{{60, 20}, {30, 30, 30}, {3, 70, 1}, {65}, {17, 17, 17, 17}, {129}, {1, 16, 17, 64}} {
+		var shape [][]int
+		for _, n := range counts {
+			rings := make([]int, n)
+			for i := range rings {
+				rings[i] = 1
+			}
+			shape = append(shape, rings)
+		}
+		bases = append(bases, ref.NewMultiPolygon(geom.XY, shape, ref.Counter()))
+		if len(counts) == 1 {
+			bases = append(bases, ref.NewParts(ref.Polygon, geom.XYZ, shape[0], ref.Counter()))
+		}
+	}
 	// special floats: every ordinate of a point, of a 2-point line and of a multipoint set to the
 	// same special value (a point whose ordinates all carry the canonical quiet-NaN pattern is the
 	// WIRE form of the empty point, but in memory it is a point with coordinates), and one at a time
